@@ -21,6 +21,7 @@ import os
 import re
 import threading
 import time
+from common import poke  # noqa: E402
 
 from common import cN, cnat, cbool, clist, copt
 
@@ -127,7 +128,7 @@ class Worker:
         self.ctx = StubCtx(srvname)
         self.th = rpc._RpcThread(self.ctx, lambda: None)
         self.obj = obj_class()(self.ctx, "obj")
-        self.th._rpc_object = self.obj
+        poke(self.th, '_rpc_object', self.obj)
         self.dead = None
 
     def T(self, t):
@@ -195,7 +196,7 @@ class Worker:
 def step_direct(state, action, tok):
     """One lock request in lock state `state`. -> ('ok', after, reply) | ('exc', name, after)"""
     w = Worker()
-    w.th._locking_token = w.T(state)
+    poke(w.th, '_locking_token', w.T(state))
     req = w.lock_request(action, tok)
     r = w.handle_lock(req)
     if r[0] == "exc":
@@ -205,7 +206,7 @@ def step_direct(state, action, tok):
 
 def gate_direct(state, tok, x=7):
     w = Worker()
-    w.th._locking_token = w.T(state)
+    poke(w.th, '_locking_token', w.T(state))
     req = w.method_request(tok, x)
     r = w.handle_method(req)
     if r[0] == "exc":
